@@ -7,6 +7,7 @@ Extra forms
   * spec["sym"] = "Path"          attribute / constant-subscript chain `self.config.X`   ==> `["self", "config", "X"]`
   * spec["sym"] = "Str"           a string literal                                      ==> the literal
   * spec["sym"] = "DictKeys"      `{"a": x, "b": y}`                                    ==> `["a", "b"]`
+  * spec["sym"] = "Text"          any expression                                        ==> its `ast.unparse` text as a string
     (the Lean result type is given with spec["rtype"])
   * spec["kwfuns"] = {"callee text": (lean_fun, [kw1, kw2, ...])}: a call `callee(p1, .., kw1=v1, kw2=v2)` becomes
     `(lean_fun p1 .. v1 v2)`; every listed keyword must be present, no other keyword may be. Keywords named in spec["kwbool"]
@@ -98,6 +99,8 @@ def symbolic(spec, expr):
         if not (isinstance(expr, ast.Dict) and all(isinstance(k, ast.Constant) and isinstance(k.value, str) for k in expr.keys)):
             raise ExtractError(f"expected a dict literal with string keys, got `{ast.unparse(expr)[:80]}`")
         return "[" + ", ".join(_lstr(k.value) for k in expr.keys) + "]"
+    if kind == "Text":  # the normalised source text of the expression itself (a textual pin for forms outside every other language)
+        return _lstr(ast.unparse(expr))
     raise ExtractError(f"unknown symbolic kind {kind}")
 
 
